@@ -268,6 +268,8 @@ def run(ctx):
         atg.run_expand_stream(ctx, 'C03', 900 if ctx.tier == 'quick' else 20000)
         # whole statements through markup.parse (C03_statement_markup_parse): every place carries its own element's mentions
         atg.run_stmt_parse_stream(ctx, 'C03', 600 if ctx.tier == 'quick' else 15000)
+        # ... and through expand with formatting off (C03_statement_expand): nested tags, every element once, in order
+        atg.run_stmt_expand_stream(ctx, 'C03', 500 if ctx.tier == 'quick' else 12000)
     ctx.cov['corpus_cases'] = n_corpus
     for (abbr, cfg, exp, mode), r in list(zip(cases, impl))[n_corpus + 3000:n_corpus + 3004]:
         ctx.sample({'abbr': abbr, 'config': cfg, 'output': r[1][:160] if r[0] == 'ok' else r})
@@ -280,7 +282,7 @@ def replay(ctx, obj):
         return 1
     if rp.get('component') == 'text-tree':
         return atg.replay(rp)
-    if rp.get('component') == 'C03expand':
+    if rp.get('component') in ('C03expand', 'C03stmtexpand'):
         return atg.replay_expand(rp)
     if rp.get('component') == 'stmt-parse':
         return atg.replay_stmt_parse(rp)
